@@ -67,6 +67,9 @@ ASSUMPTIONS = [
     "a badly scaled design input (all its partials times 1e-10 or 1e-13) belongs to the domain: dR/dy stays well conditioned",
     "a RuntimeError 'breakdown' raised, NaN returned or a non-convergence logged (gemseo then uses the unconverged solution) by a named Krylov solver (BICGSTAB, BICG, CGS, GCROT, TFQMR, GMRES, LGMRES) is "
     "inconclusive for that solver (class 'inconclusive:krylov_breakdown'), CG is not used (needs a symmetric matrix)",
+    "BICG and CGS (irregular convergence) can return a diverged iterate with info == 0 and no log: such a failure is re-run with the DEFAULT "
+    "solver, all else equal; if that passes the case is inconclusive for the solver (class 'inconclusive:irregular_krylov_silent_divergence'), "
+    "otherwise the original violation is reported",
     "LU factorisation is requested with the sparse matrix type only (documented ValueError with linear operators, checked)",
     "MDANewtonRaphson is given all-strongly-coupled systems only (others reach it through MDAChain)",
     "residual/state-form disciplines solve their own state equations (state_equations_are_solved=True) except, when drawn, in "
@@ -353,10 +356,28 @@ def compare(ctx, p, model, tag, jac, expected, in_names, out_names, label, magni
             ctx.extra["max_error_over_bound"] = max(ctx.extra.get("max_error_over_bound", 0.0), round(err / bound, 6))
 
 
+IRREGULAR_KRYLOV = {"BICG", "CGS"}  # SciPy documents their irregular convergence; they can report success on a diverged iterate
+
+
 def case_derivatives(p, ctx):
+    from vlib.core import Violation
+
     with warnings.catch_warnings():
         warnings.simplefilter("ignore")
-        _case_derivatives(p, ctx)
+        try:
+            _case_derivatives(p, ctx)
+        except Violation as violation:
+            if p["solver"] not in IRREGULAR_KRYLOV or violation.oracle not in ("closed_form", "unrequested_pairs"):
+                raise
+            # Silent divergence of SciPy's bicg / cgs (info == 0, nothing logged, entries of 1e10; found by the thorough
+            # tier at seed 5): the same request with the robust default solver - everything else identical, so gemseo's
+            # assembly is the same - decides whether the failure is the SciPy routine's (inconclusive) or gemseo's.
+            try:
+                _case_derivatives(dict(p, solver="DEFAULT"), ctx)
+            except Violation:
+                raise violation from None
+            ctx.cls("inconclusive:irregular_krylov_silent_divergence")
+            ctx.note("bicg / cgs returned a diverged solution as converged while the default solver satisfies the closed form: inconclusive for that solver")
 
 
 def _case_derivatives(p, ctx):
